@@ -3,25 +3,30 @@ import os, re, json, subprocess, time
 
 
 def fn_index(text):
-    """[(line, qualified name)] of every fn in the generated file, with impl context"""
-    out = []
-    ctx = None
-    ctx_indent = 0
-    for i, line in enumerate(text.split('\n'), 1):
-        m = re.match(r'^(\s*)impl(?:<[^>]*>)?\s+(.*?)\s*\{', line)
-        if m:
-            hdr = m.group(2)
-            mm = re.match(r'(?:[\w:]+(?:<[^>]*>)?\s+for\s+)?(\w+)', hdr)
-            forty = re.search(r'\bfor\s+(\w+)', hdr)
-            ctx = forty.group(1) if forty else mm.group(1)
-            ctx_indent = len(m.group(1))
+    """[(line, qualified name)] of every fn in the generated file, with impl context (brace matched)"""
+    from xtract import match_brace
+    spans = []   # (start_off, end_off, type name)
+    for m in re.finditer(r'^[ \t]*impl(?:<[^>]*>)?\s+([^{\n]*?)\s*\{', text, re.M):
+        hdr = m.group(1)
+        forty = re.search(r'\bfor\s+(\w+)', hdr)
+        mm = re.match(r'(\w+)', hdr)
+        ty = forty.group(1) if forty else (mm.group(1) if mm else None)
+        try:
+            end = match_brace(text, m.end() - 1)
+        except Exception:
             continue
-        if ctx is not None and re.match(r'^\s{0,%d}\}' % ctx_indent, line) and len(line) - len(line.lstrip()) == ctx_indent:
-            ctx = None
-        m = re.match(r'^\s*(?:pub(?:\(crate\))?\s+)?(?:open\s+|closed\s+|uninterp\s+)?(?:broadcast\s+)?(?:proof\s+|spec\s+|exec\s+|axiom\s+)?fn\s+(\w+)', line)
-        if m:
-            name = m.group(1)
-            out.append((i, (ctx + '::' + name) if ctx and line.startswith(' ') else name))
+        spans.append((m.start(), end, ty))
+    out = []
+    for m in re.finditer(r'^[ \t]*(?:pub(?:\(crate\))?\s+)?(?:open\s+|closed\s+|uninterp\s+)?(?:broadcast\s+)?(?:proof\s+|spec\s+|exec\s+|axiom\s+)?fn\s+(\w+)', text, re.M):
+        off = m.start()
+        ctx = None
+        for (a, b, ty) in spans:
+            if a <= off < b:
+                ctx = ty
+        line = text.count('\n', 0, off) + 1
+        # nested fns (closures lifted by hand do not exist); a fn inside an impl is a method
+        out.append((line, (ctx + '::' + m.group(1)) if ctx else m.group(1)))
+    out.sort()
     return out
 
 
